@@ -805,3 +805,74 @@ func keySetsDiffer(a, b reflect.Value, depth int) bool {
 	}
 	return false
 }
+
+// ---------------------------------------------------------------- JSON documents as trees
+
+// J is a JSON document as a tree: the shape (kinds, lengths, keys present) is chosen by the
+// harness (forked), the leaves are symbolic. JSONBytes turns it into the []byte the code under
+// test decodes; under the engine the bytes are a handle to the tree and encoding/json.Unmarshal
+// is given its documented contract per Go target type.
+type J struct {
+	Kind int // 0 null, 1 bool, 2 number, 3 string, 4 array, 5 object
+	Bool bool
+	Num  int64 // the number's integral part
+	Frac bool  // the number is Num + 0.5 (not integral)
+	Str  string
+	Arr  []J
+	Keys []string
+	Vals []J
+}
+
+const (
+	JNull = iota
+	JBool
+	JNumber
+	JString
+	JArray
+	JObject
+)
+
+func JSONBytes(j J) []byte {
+	var sb strings.Builder
+	writeJ(&sb, j)
+	return []byte(sb.String())
+}
+
+func writeJ(sb *strings.Builder, j J) {
+	switch j.Kind {
+	case JNull:
+		sb.WriteString("null")
+	case JBool:
+		fmt.Fprint(sb, j.Bool)
+	case JNumber:
+		if j.Frac {
+			fmt.Fprintf(sb, "%d.5", j.Num)
+		} else {
+			fmt.Fprint(sb, j.Num)
+		}
+	case JString:
+		b, _ := json.Marshal(j.Str)
+		sb.Write(b)
+	case JArray:
+		sb.WriteString("[")
+		for i, e := range j.Arr {
+			if i > 0 {
+				sb.WriteString(",")
+			}
+			writeJ(sb, e)
+		}
+		sb.WriteString("]")
+	default:
+		sb.WriteString("{")
+		for i, k := range j.Keys {
+			if i > 0 {
+				sb.WriteString(",")
+			}
+			b, _ := json.Marshal(k)
+			sb.Write(b)
+			sb.WriteString(":")
+			writeJ(sb, j.Vals[i])
+		}
+		sb.WriteString("}")
+	}
+}
